@@ -30,7 +30,7 @@ LEVEL_TEXT = ("Real runs of lengths 1-12 with output periods 1-4 and all plug-in
               "time, release, forcing, [output iff step >= 0], tracker, ibm - each exactly once - and close exactly once per module that has one.")
 LEVEL_NOTE = "The two traces are recorded by different mechanisms (wrappers vs interpreter events) and must agree call for call; a run whose tracer saw zero anchored calls is inconclusive."
 RULE = ("case = (variant, steps, period, plug-in spelling, warm/cold, kill schedule). Non-trivial: at least 2 steps and a release after the first step or an IBM kill; distinct by parameters.")
-MANDATORY = ["ibm_removal_followed_warm", "ibm_removal_followed_cold", "v1_ibm_section_with_module_key", "v1_ibm_section_with_ibm_module_key", "grid_module_taken_from_the_forcing_section", "two_models_alive_and_stepped_in_turn", "records_compared_with_the_solo_run", "plugin_file_name_with_a_dot", "warm_start_record_times_checked", "v1_user_gridforce_module", "v1_user_module_name_ending_in_ROMS", "no_particles_during_first_steps", "stock_scalar_values_checked", "plugin_section_with_module_only", "steps_parsed", "traces_agree", "plugin_relative", "plugin_absolute", "plugin_with_py", "plugin_subdir", "plugin_module_name", "decoy_present", "warm_start_runs",
+MANDATORY = ["configuration_file_outside_the_working_directory_next_to_namesakes", "ibm_removal_followed_warm", "ibm_removal_followed_cold", "v1_ibm_section_with_module_key", "v1_ibm_section_with_ibm_module_key", "grid_module_taken_from_the_forcing_section", "two_models_alive_and_stepped_in_turn", "records_compared_with_the_solo_run", "plugin_file_name_with_a_dot", "warm_start_record_times_checked", "v1_user_gridforce_module", "v1_user_module_name_ending_in_ROMS", "no_particles_during_first_steps", "stock_scalar_values_checked", "plugin_section_with_module_only", "steps_parsed", "traces_agree", "plugin_relative", "plugin_absolute", "plugin_with_py", "plugin_subdir", "plugin_module_name", "decoy_present", "warm_start_runs",
              "output_plugin_runs", "forcing_plugin_runs", "coded_scalar_values_checked", "ibm_positions_checked", "kills_checked", "ibm_kills_everybody_present", "late_release_in_record", "close_calls_checked"]
 ASSUMPTIONS = ["state and time have no close by design; close is required exactly once only for modules that define one"]
 MIN_CASES_PER_PROCESS = 4  # several runs share one interpreter: state leaking between runs (module caches, shared defaults) becomes observable
@@ -287,6 +287,13 @@ def run_case(case: dict[str, Any], wd: Path) -> dict[str, Any]:
             if sp == "subdir":
                 write_decoy(wd / f"{name}.py", cls)  # a file of the same name in the working directory itself
         modspec[role] = spell(wd, name, sp)
+    # a third of the relative spellings: the configuration file lives in another directory than the working directory, next to files that carry
+    # the plug-ins' names - relative plug-in paths are relative to the working directory, those neighbours must not run
+    cfg_elsewhere = bool(case["idx"] % 3 == 1 and sp in ("relative", "relative_py") and not case["warm"])
+    if cfg_elsewhere:
+        for role, (name, _t, cls) in plugins.items():
+            write_decoy(wd / "cfg" / f"{name}.py", cls)
+        sit["configuration_file_outside_the_working_directory_next_to_namesakes"] = 1
     one_file = bool(variant == "analytic" and case["idx"] % 5 == 1 and sp in ("relative", "relative_py", "absolute", "absolute_py"))
     if one_file:
         # Grid and Forcing live in one user file named in the forcing section only; the grid section carries options but no module
@@ -373,7 +380,7 @@ def run_case(case: dict[str, Any], wd: Path) -> dict[str, Any]:
                 hk.wrap(ON.Output, "close", lambda self: rec.CALLS.append(("output.close",)), None)
             tracer.start()
             try:
-                res, conf, w = run_scenario(scn, wd, tweak=tweak)
+                res, conf, w = run_scenario(scn, wd, tweak=tweak, conf_name="cfg/ladim.yaml" if cfg_elsewhere else "ladim.yaml")
             finally:
                 tracer.stop()
             segments.append(("cold", list(rec.CALLS), list(tracer.events), list(rec.LOG), res, conf))
